@@ -9,8 +9,10 @@ from . import common as C, pkgfam as P
 BASES = [
     dict(id="b0", pkg="one", comp="none", n=4, extra=0, seed=13),
     dict(id="b1", pkg="one", comp="zstd", n=5, extra=0, seed=14),
-    dict(id="b2", pkg="two", comp="lz4", n=4, extra=1, seed=13),
+    dict(id="b2", pkg="two", comp="lz4", n=4, extra=1, seed=13, idgap=5),     # the extra pack has id 7: pack ids are not contiguous
     dict(id="b5", pkg="no", comp="none", n=3, extra=0, seed=17, reduced=True),    # every pack in its own file
+    # 1100 extra tiny contents: the content-info table of the content pack is a block of more than 4 KiB (mmap path of the file source)
+    dict(id="b6", pkg="two", comp="none", n=4, extra=0, seed=19, cmax=7, orphans=1100, sparse=True),
 ]
 THOROUGH_BASES = [
     dict(id="b3", pkg="no", comp="lzma", n=6, extra=1, seed=15),
@@ -39,6 +41,8 @@ def gen_ops(base, sizes, tier, rng):
         step = 1 if tier == "thorough" or (fname == "c.jbk" and base["id"] == "b0") else 3
         if base.get("reduced") and tier != "thorough":
             step = 7
+        if base.get("sparse"):
+            step = (5 if fname != "c.jbk" else 11) if tier != "thorough" else 1
         masks = ["01", "80", "ff"] if tier == "thorough" else ["01"]
         for pos in range(0, size, step):
             for mk in masks:
